@@ -64,7 +64,7 @@ pub(super) fn handle_prev_state<'i>(
                 .map_err(UncatchableError::from)?;
 
             verifier::verify_call(
-                argument_hash.as_ref().unwrap(),
+                argument_hash.ok_or_else(arguments_not_resolved)?,
                 tetraplet,
                 &service_result_aggregate.argument_hash,
                 &current_tetraplet,
@@ -91,7 +91,7 @@ pub(super) fn handle_prev_state<'i>(
                 Some(call_result) => {
                     update_state_with_service_result(
                         tetraplet.clone(),
-                        argument_hash.expect("Result for joinable error").clone(),
+                        argument_hash.ok_or_else(arguments_not_resolved)?.clone(),
                         output,
                         call_result,
                         exec_ctx,
@@ -122,7 +122,7 @@ pub(super) fn handle_prev_state<'i>(
 
             populate_context_from_data(
                 value.clone(),
-                argument_hash.as_ref().unwrap(),
+                argument_hash.ok_or_else(arguments_not_resolved)?,
                 tetraplet.clone(),
                 met_result.trace_pos,
                 met_result.source,
@@ -142,6 +142,16 @@ pub(super) fn handle_prev_state<'i>(
 
             Ok(StateDescriptor::executed())
         }
+    }
+}
+
+/// The data holds a result (or an own pending request) for a call whose arguments can't be resolved yet,
+/// so there is no argument hash to compare with: such data doesn't correspond to this script.
+fn arguments_not_resolved() -> UncatchableError {
+    UncatchableError::InstructionParametersMismatch {
+        param: "call argument_hash",
+        expected_value: "<none: call arguments aren't resolved yet>".to_owned(),
+        stored_value: "<a state from data>".to_owned(),
     }
 }
 
